@@ -27,7 +27,7 @@ structure Shape (sr : Final → Rcpt) (evs : List Ev) (o : Outcome) where
   le : o.rc.receipts.length ≤ maxReceipts
 
 theorem finish_spec {H : Bytes → Bytes} {sr : Final → Rcpt} (hsr : ∀ f, (sr f).kind = .scriptResult)
-    {rc : RCtx} (fin : Final) (hl : rc.receipts.length ≤ maxReceipts - 1) (hs : Sync H rc) :
+    {rc : RCtx} (fin : Final) (hl : rc.n ≤ maxReceipts - 1) (hs : Sync H rc) :
     ∃ o, finish H rc fin sr = .ok o ∧ o.fin = fin ∧ o.rc.receipts = rc.receipts ++ [sr fin] ∧ Sync H o.rc := by
   obtain ⟨rc', h⟩ := push_sr_ok (H := H) hl (hsr fin)
   refine ⟨⟨rc', fin⟩, by simp [finish, h], rfl, (push_shape h).1, push_sync hs h⟩
@@ -37,8 +37,8 @@ theorem panicPath_spec {H : Bytes → Bytes} {sr : Final → Rcpt} (hsr : ∀ f,
     ∃ o, panicPath H rc p sr = .ok o ∧ o.fin = .panic ∧ o.rc.receipts = rc.receipts ++ [p, sr .panic] ∧ Sync H o.rc := by
   obtain ⟨rc', h⟩ := push_panic_ok (H := H) hg hp
   have h1 := (push_shape h).1
-  have hl : rc'.receipts.length ≤ maxReceipts - 1 := by
-    rw [h1]; simp only [List.length_append, List.length_cons, List.length_nil]
+  have hl : rc'.n ≤ maxReceipts - 1 := by
+    rw [(push_shape h).2.2]
     have := hg.1; simp [maxReceipts] at *; omega
   obtain ⟨o, ho, hf, hr, hsy⟩ := finish_spec (H := H) hsr .panic hl (push_sync hs h)
   refine ⟨o, by simp [panicPath, h, ho], hf, ?_, hsy⟩
@@ -59,10 +59,10 @@ theorem run_wellformed (H : Bytes → Bytes) (sr : Final → Rcpt) (tmr : Rcpt)
       ∃ o, panicPath H rc p sr = .ok o ∧ Nonempty (Shape sr evs o) ∧ Sync H o.rc := by
     intro evs rc p hg hp hs
     obtain ⟨o, ho, hf, hr, hsy⟩ := panicPath_spec (H := H) hsr hg hp hs
-    refine ⟨o, ho, ⟨⟨rc.receipts, hg.2, fun h => absurd (hf.symm.trans h) (by decide), fun h => absurd (hf.symm.trans h) (by decide),
+    refine ⟨o, ho, ⟨⟨rc.receipts, hg.2.1, fun h => absurd (hf.symm.trans h) (by decide), fun h => absurd (hf.symm.trans h) (by decide),
       fun _ => ⟨p, hp, hr⟩, ?_⟩⟩, hsy⟩
     rw [hr]; simp only [List.length_append, List.length_cons, List.length_nil]
-    have := hg.1; simp [maxReceipts] at *; omega
+    have := hg.1; have := hg.2.2; simp [maxReceipts] at *; omega
   induction evs generalizing rc depth with
   | nil => left; rfl
   | cons e evs ih =>
@@ -108,11 +108,11 @@ theorem run_wellformed (H : Bytes → Bytes) (sr : Final → Rcpt) (tmr : Rcpt)
         split
         · right
           obtain ⟨o, ho, hf, hr, hsy⟩ := finish_spec (H := H) hsr .success (lenle hg'.1) hs'
-          refine ⟨o, ho, ⟨⟨rc'.receipts, hg'.2,
+          refine ⟨o, ho, ⟨⟨rc'.receipts, hg'.2.1,
             fun _ => ⟨hr, r, List.mem_cons_self, by rw [(push_shape hp).1]; simp⟩,
             fun h => absurd (hf.symm.trans h) (by decide), fun h => absurd (hf.symm.trans h) (by decide), ?_⟩⟩, hsy⟩
           rw [hr]; simp only [List.length_append, List.length_cons, List.length_nil]
-          have := hg'.1; simp [maxReceipts] at *; omega
+          have := hg'.1; have := hg'.2.2; simp [maxReceipts] at *; omega
         · exact recur rc' (depth - 1) hg' hs'
       | error err =>
         have := push_prog_err hg hp; subst this
@@ -127,12 +127,12 @@ theorem run_wellformed (H : Bytes → Bytes) (sr : Final → Rcpt) (tmr : Rcpt)
         have hl' := push_prog_len hg hrp hp
         have hs' := push_sync hs hp
         right
-        obtain ⟨o, ho, hf, hr, hsy⟩ := finish_spec (H := H) hsr .revert (lenle hl') hs'
-        refine ⟨o, ho, ⟨⟨rc.receipts, hg.2, fun h => absurd (hf.symm.trans h) (by decide),
+        obtain ⟨o, ho, hf, hr, hsy⟩ := finish_spec (H := H) hsr .revert (lenle hl'.1) hs'
+        refine ⟨o, ho, ⟨⟨rc.receipts, hg.2.1, fun h => absurd (hf.symm.trans h) (by decide),
           fun _ => ⟨r, List.mem_cons_self, he, by rw [hr, (push_shape hp).1]; simp⟩,
           fun h => absurd (hf.symm.trans h) (by decide), ?_⟩⟩, hsy⟩
         rw [hr]; simp only [List.length_append, List.length_cons, List.length_nil]
-        simp [maxReceipts] at *; omega
+        have := hl'.1; have := hl'.2; simp [maxReceipts] at *; omega
       | error err =>
         have := push_prog_err hg hp; subst this
         simp only
@@ -314,10 +314,9 @@ example : kindsOf (runEvents exH exSr exTmr RCtx.empty 0 [.call ⟨.call, [2]⟩
 example : kindsOf (runEvents exH exSr exTmr RCtx.empty 0 [.emit ⟨.log, [1]⟩, .fault ⟨.panic, [7]⟩]) = [.log, .panic, .scriptResult] := by decide
 /-- the boundary: with 65,533 receipts a further program receipt is refused, a Panic receipt is accepted;
 with 65,532 a program receipt is still accepted -/
-example (l : List Rcpt) (h : l.length = 65533) :
-    (RCtx.push exH ⟨l, []⟩ ⟨.log, []⟩).toOption = none ∧ (RCtx.push exH ⟨l, []⟩ ⟨.panic, []⟩).toOption.isSome = true := by
-  simp [RCtx.push, maxReceipts, h, Except.toOption]
-example (l : List Rcpt) (h : l.length = 65532) : (RCtx.push exH ⟨l, []⟩ ⟨.log, []⟩).toOption.isSome = true := by
-  simp [RCtx.push, maxReceipts, h, Except.toOption]
+example (l : List Rcpt) :
+    (RCtx.push exH ⟨l, 65533, []⟩ ⟨.log, []⟩).toOption = none ∧ (RCtx.push exH ⟨l, 65533, []⟩ ⟨.panic, []⟩).toOption.isSome = true
+    ∧ (RCtx.push exH ⟨l, 65532, []⟩ ⟨.log, []⟩).toOption.isSome = true := by
+  simp [RCtx.push, maxReceipts, Except.toOption]
 
 end FuelVerif.Outcome
